@@ -324,6 +324,32 @@ pub fn check_image(o: &mut Out, im: &Img, sched: &[usize], to_model: bool) {
             o.violation(viol("row-handed-out-is-not-the-scanline", vec![("image", jstr(&im.name)), ("schedule", jstr(&format!("{:?}", sched))), ("why", jstr(&w)), ("file", jstr(&short(&im.file)))]));
         }
     }
+    // a whole-frame call in mid-frame, into a buffer longer than the frame needs (a buffer reused across images): the rows already taken stay
+    // the caller's, the call delivers exactly the remaining scanlines of the specification and succeeds
+    if got_px.is_some() && bad.is_none() && !s.interlaced && s.h >= 2 && (s.w as u64 * s.h as u64) <= (1 << 20) {
+        let first = 1 + (s.h as usize - 2).min(im.file.len() % 3);
+        let extra = 1 + im.file.len() % 2;
+        let r = guarded(|| -> Result<Vec<u8>, String> {
+            let mut rd = open_decoder(PieceReader::new(im.file.clone(), sched), Opts::default(), 0, None).read_info().map_err(|e| res_err(&e))?;
+            let mut buf = vec![0xA5u8; rb * (s.h as usize + extra)];
+            for y in 0..first {
+                let row = rd.next_row().map_err(|e| res_err(&e))?.ok_or("no row")?;
+                buf[y * rb..(y + 1) * rb].copy_from_slice(row.data());
+            }
+            rd.next_frame(&mut buf).map_err(|e| format!("next_frame after {} rows into a buffer of {} lines: {}", first, s.h as usize + extra, res_err(&e)))?;
+            Ok(buf)
+        });
+        o.direct_checks += 1;
+        let why = match r {
+            Err(m) => Some(format!("PANIC {}", m)),
+            Ok(Err(e)) => Some(e),
+            Ok(Ok(buf)) => if buf[..rb * s.h as usize] != im.want[..] { Some("pixels differ from the specification".to_string()) }
+                           else if buf[rb * s.h as usize..].iter().any(|b| *b != 0xA5) { Some("bytes behind the frame were written".to_string()) } else { None },
+        };
+        if let Some(w) = why {
+            o.violation(viol("mid-frame-whole-frame-call-differs-from-specification", vec![("image", jstr(&im.name)), ("schedule", jstr(&format!("{:?}", sched))), ("why", jstr(&w)), ("file", jstr(&short(&im.file)))]));
+        }
+    }
     if to_model {
         let res = match &got_px {
             Some(p) => hex(p),
